@@ -59,6 +59,7 @@ def cfg(td=(), tags=("s1",), en=(), k=(), fn=(), gv=(), prims=("int", "char"), f
 SCENARIOS = {
     "q_struct": dict(tags=("s1",), n=1),
     "q_const": dict(tags=(), en=("e1",), k=("k1",), n=2),
+    "q_bigk": dict(tags=(), en=("e1",), k=("k1",), feat=("bigconst",), n=1),
     "q_use": dict(tags=("s1",), fn=("f1",), gv=("g1",), prims=("int",), n=2),
     "sanity": dict(tags=("s1",), en=("e1",), k=("k1",), prims=("int", "char"), n=1),
     # thorough
@@ -390,7 +391,7 @@ def random_case(rng):
 def run(ctx):
     quick = ctx.quick
     jobs = int(os.environ.get("VERIF_JOBS", "8"))
-    scen = ["q_struct", "q_const", "q_use"] if quick else ["q_struct", "q_const", "q_use", "struct2", "mixed2"]
+    scen = ["q_struct", "q_const", "q_bigk", "q_use"] if quick else ["q_struct", "q_const", "q_bigk", "q_use", "struct2", "mixed2"]
 
     def tlc_job(name):
         r = core.tlc("CdefApi", cfg_text=cfg(emit=True, **SCENARIOS[name]), workers=1, timeout=1700)
@@ -401,7 +402,7 @@ def run(ctx):
         return core.tlc("CdefApi", cfg_text=cfg(probe=True, variants=("faithful",) + BROKEN, **SCENARIOS["sanity"]),
                         workers=1, timeout=900)
 
-    behs = []
+    behs, must = [], []
     with ThreadPoolExecutor(max(2, min(jobs, 6))) as ex:
         fs = ex.submit(sanity_job)
         fd = [ex.submit(tlc_job, s) for s in scen]
@@ -411,6 +412,8 @@ def run(ctx):
             if len(bs) != r.distinct:
                 raise core.MachineryError("%s: %d behaviours printed, %d states" % (name, len(bs), r.distinct))
             behs += [b for b in bs if b]
+            if name == "q_bigk":
+                must = [b for b in bs if b]          # every 64-bit boundary value, always replayed
         r = fs.result()
         ctx.add_tlc("sanity(strict + 3 weakened models)", r, count_states=False)
         caught = {}
@@ -439,7 +442,7 @@ def run(ctx):
             if groups[kind] and len(strat) < n_mut:
                 strat.append(groups[kind].pop())
     ctx.cov["mutation_kinds"] = len(groups)
-    for b in strat + plain[:n_plain]:
+    for b in must + strat + plain[:n_plain]:
         kk = mg.beh_key(b)
         if kk not in seen:
             seen.add(kk)
